@@ -233,7 +233,7 @@ def gen_str_case(rng, k, nlev):
              Tmin=H.yaml_number_text(c['Tmin'], 'dump'))
     j = rng.randrange(len(c['K']))
     if k % 3 == 2:
-        c['Tmin'] = float(rng.choice(['1e-05', '2e-03', '1e+16']))
+        c['Tmin'] = float(rng.choice(['1e-05', '2e-06', '1e+16']))
         t['Tmin'] = repr(c['Tmin'])
         assert H.yaml_type(t['Tmin']) == 'str'
     else:
@@ -454,11 +454,11 @@ def check_cases(cases, out, label):
                 out.violation('oracle', 'the caller\'s levels were modified: the float64 array (%s) handed to the '
                               'transmissivity function differs from its pristine copy afterwards: knots=%s K=%s levels=%s'
                               % (mode, zk, K, ok_levels), case=jcase)
-            for n, (st, arr) in enumerate(results, 1):
+            for nth, (st, arr) in enumerate(results, 1):
                 if st == 'err' or [float(x) for x in arr] != [vals[z] for z in ok_levels]:
                     out.violation('oracle', 'call number %d with the same float64 array (%s) gives %s, scalar calls at '
                                   'these levels give %s: knots=%s K=%s levels=%s'
-                                  % (n, mode, arr, [vals[z] for z in ok_levels], zk, K, ok_levels), case=jcase)
+                                  % (nth, mode, arr, [vals[z] for z in ok_levels], zk, K, ok_levels), case=jcase)
                     break
         # integer-typed arguments: a list of Python ints and an integer-dtype ndarray (whole-number levels of the
         # knot range) must give the float values the scalar calls give
